@@ -178,6 +178,11 @@ fn caps_for(i: usize, rng: &mut Rng) -> WgslCapabilities {
     }
 }
 
+const KEEPALIVE: [&str; 2] = [
+    "@group(0) @binding(0) var tex: texture_2d<f32>;\n@group(0) @binding(1) var samp: sampler;\n@group(0) @binding(2) var<uniform> u: vec4<f32>;\n@fragment fn fs_main() -> @location(0) vec4<f32> {\n    _ = tex;\n    _ = samp;\n    return u;\n}\n",
+    "@group(0) @binding(0) var<storage, read_write> buf: array<f32>;\n@group(0) @binding(1) var<uniform> k: f32;\n@compute @workgroup_size(1) fn cs_main() {\n    let p = &buf;\n    _ = k;\n}\n@vertex fn vs_main() -> @builtin(position) vec4<f32> {\n    _ = k;\n    return vec4<f32>(0.0);\n}\n",
+];
+
 impl Property for C17 {
     fn id(&self) -> &'static str {
         "C17"
@@ -199,6 +204,12 @@ impl Property for C17 {
         for (k, b) in base.iter().enumerate() {
             out.push(mk(format!("base{k}/intact/caps=all"), b.clone(), WgslCapabilities::all()));
             out.push(mk(format!("base{k}/intact/caps=empty"), b.clone(), WgslCapabilities::empty()));
+        }
+        // valid shaders in which a resource is referenced without naga recording a use (keep-alive idiom, unused pointer):
+        // anything that derives the output from the validator's analysis instead of the module differs here
+        for (k, s) in KEEPALIVE.iter().enumerate() {
+            out.push(mk(format!("keepalive{k}/caps=all"), s.to_string(), WgslCapabilities::all()));
+            out.push(mk(format!("keepalive{k}/caps=default"), s.to_string(), WgslCapabilities::default()));
         }
         for (k, s) in SEMANTIC.iter().enumerate() {
             out.push(mk(format!("semantic{k}/caps=all"), s.to_string(), WgslCapabilities::all()));
